@@ -144,7 +144,8 @@ def _has_either_edge(graph: NxMixedGraph, u: Variable, v: Variable) -> bool:
 
 
 def _only_directed_edge(graph: NxMixedGraph, u: Variable, v: Variable) -> bool:
-    return graph.directed.has_edge(u, v) and not graph.undirected.has_edge(u, v)
+    # a walk picks one edge per step: when u -> v and u <-> v are both there, the directed one (tail at u) is available
+    return cast(bool, graph.directed.has_edge(u, v))
 
 
 def is_collider(
